@@ -30,6 +30,10 @@ pub struct Schedule {
     pub armed_at: u8,
     /// the creator fails on its n-th invocation (0 = never)
     pub creator_fails_at: u8,
+    /// ... by panicking (contained by the caller, as a worker thread or catch_unwind would)
+    /// instead of returning an error
+    #[serde(default)]
+    pub creator_panics: bool,
 }
 
 #[derive(Default)]
@@ -44,6 +48,7 @@ struct World {
     callback_armed: AtomicBool,
     in_creator_request: AtomicBool,
     fail_at: AtomicU64,
+    fail_by_panic: AtomicBool,
     log: Mutex<Vec<String>>,
 }
 
@@ -58,6 +63,7 @@ pub struct Reloader;
 fn run_schedule(s: &Schedule) -> Result<Vec<String>, (String, String)> {
     let w = Arc::new(World::default());
     w.fail_at.store(s.creator_fails_at as u64, Ordering::SeqCst);
+    w.fail_by_panic.store(s.creator_panics, Ordering::SeqCst);
     let requests: Arc<Mutex<Vec<u64>>> = Arc::new(Mutex::new(vec![])); // return times
     // the same, never consumed (what justifies a creator call)
     let all_requests: Arc<Mutex<Vec<u64>>> = Arc::new(Mutex::new(vec![]));
@@ -85,6 +91,9 @@ fn run_schedule(s: &Schedule) -> Result<Vec<String>, (String, String)> {
         }
         if w.fail_at.load(Ordering::SeqCst) == n {
             w.creator_running.store(false, Ordering::SeqCst);
+            if w.fail_by_panic.load(Ordering::SeqCst) {
+                panic!("creator panicked");
+            }
             return Err(minijinja::Error::new(minijinja::ErrorKind::InvalidOperation, "creator failed"));
         }
         let mut env = Environment::new();
@@ -145,7 +154,24 @@ fn run_schedule(s: &Schedule) -> Result<Vec<String>, (String, String)> {
         let creator_before = w.creator_calls.load(Ordering::SeqCst);
         let pending_before: Vec<u64> = requests.lock().unwrap().iter().copied().filter(|t| *t < start).collect();
         let armed_before = w.callback_armed.load(Ordering::SeqCst);
-        let res = reloader.acquire_env();
+        // a panic of the creator (or of a reloader that refuses to go on after one) is contained:
+        // such an acquire hands out nothing
+        let res = match std::panic::catch_unwind(std::panic::AssertUnwindSafe(|| reloader.acquire_env())) {
+            Ok(r) => r,
+            Err(_) => {
+                minijinja_autoreload::verif::set_yield_callback(None);
+                w.in_creator_request.store(false, Ordering::SeqCst);
+                w.creator_running.store(false, Ordering::SeqCst);
+                if !s.creator_panics || w.creator_calls.load(Ordering::SeqCst) < s.creator_fails_at as u64 {
+                    problems.push(("acquire_panicked".into(), format!("acquire {ai} panicked although the creator did not")));
+                }
+                w.log.lock().unwrap().push(format!("acquire {ai} panicked"));
+                if reset_at.load(Ordering::SeqCst) != 0 {
+                    last_reset = reset_at.load(Ordering::SeqCst);
+                }
+                continue;
+            }
+        };
         minijinja_autoreload::verif::set_yield_callback(None);
         // a request planned for the creator that did not run is simply not issued
         w.in_creator_request.store(false, Ordering::SeqCst);
@@ -246,13 +272,15 @@ impl Part for Reloader {
             0u8..3,
             0u8..5,
             0u8..4,
+            prop::bool::weighted(0.3),
         )
-            .prop_map(|(acquires, fast_reload, callback, armed_at, creator_fails_at)| Schedule {
+            .prop_map(|(acquires, fast_reload, callback, armed_at, creator_fails_at, creator_panics)| Schedule {
                 acquires,
                 fast_reload,
                 callback,
                 armed_at,
                 creator_fails_at,
+                creator_panics: creator_panics && creator_fails_at > 0,
             })
             .boxed()
     }
@@ -264,7 +292,7 @@ impl Part for Reloader {
             v.labels.push("request_inside_creator");
         }
         if s.creator_fails_at > 0 {
-            v.labels.push("creator_fails_once");
+            v.labels.push(if s.creator_panics { "creator_panics_once" } else { "creator_fails_once" });
         }
         match run_schedule(s) {
             Ok(_) => {}
@@ -289,13 +317,14 @@ pub fn enumerate(max_acquires: usize, max_requests: usize) -> Vec<Schedule> {
                 }
                 for fast_reload in [false, true] {
                     for (callback, armed_at) in [(0u8, 0u8), (1, 0), (2, 1), (2, 2)] {
-                        for creator_fails_at in [0u8, 2] {
+                        for (creator_fails_at, creator_panics) in [(0u8, false), (2, false), (2, true)] {
                             out.push(Schedule {
                                 acquires: acquires.clone(),
                                 fast_reload,
                                 callback,
                                 armed_at,
                                 creator_fails_at,
+                                creator_panics,
                             });
                         }
                     }
@@ -324,13 +353,14 @@ pub fn enumerate(max_acquires: usize, max_requests: usize) -> Vec<Schedule> {
             if k == 0 {
                 for fast_reload in [false, true] {
                     for (callback, armed_at) in [(0u8, 0u8), (1, 0), (2, 1), (2, 2)] {
-                        for creator_fails_at in [0u8, 2] {
+                        for (creator_fails_at, creator_panics) in [(0u8, false), (2, false), (2, true)] {
                             out.push(Schedule {
                                 acquires: vec![vec![false; 8]; n],
                                 fast_reload,
                                 callback,
                                 armed_at,
                                 creator_fails_at,
+                                creator_panics,
                             });
                         }
                     }
@@ -436,7 +466,7 @@ impl Part for ThreadStress {
 crate::declare_parts!(Reloader, ThreadStress);
 
 pub fn run(ctx: &mut Ctx) {
-    ctx.rule = "schedules at the granularity of the reloader's lock acquisitions: up to 3 acquire_env calls (thorough: 4) with up to 3 request_reload calls placed before the acquire, right after the cache lock, between the reload check and the flag reset, between the reset and the creator, inside the creator (through the notifier handed to it), after the rebuild, before the guard is returned (verif_hooks yield points) and while the returned guard is held, x fast reload on/off x freshness callback absent / false / true-once x creator failing on its second call: enumerated completely; proptest samples longer schedules (up to 5 acquires). Oracle: a logical clock; for every request that returned at t, the first successful acquire that started after t returns an environment whose creator started after t (or, with fast reload, whose template cache was cleared, observed as a loader call); while a guard is held the stamp does not change and the creator is not running; without a pending request the creator is not called again. A real-thread stress run (2-4 threads) is a smoke test. Non-trivial: a request at an interior yield point or inside the creator. Distinct by schedule.".into();
+    ctx.rule = "schedules at the granularity of the reloader's lock acquisitions: up to 3 acquire_env calls (thorough: 4) with up to 3 request_reload calls placed before the acquire, right after the cache lock, between the reload check and the flag reset, between the reset and the creator, inside the creator (through the notifier handed to it), after the rebuild, before the guard is returned (verif_hooks yield points) and while the returned guard is held, x fast reload on/off x freshness callback absent / false / true-once x creator failing on its second call (by returning an error, or by panicking with the panic contained by the caller: such an acquire - and any later one that refuses to continue - hands out nothing): enumerated completely; proptest samples longer schedules (up to 5 acquires). Oracle: a logical clock; for every request that returned at t, the first successful acquire that started after t returns an environment whose creator started after t (or, with fast reload, whose template cache was cleared, observed as a loader call); while a guard is held the stamp does not change and the creator is not running; without a pending request the creator is not called again. A real-thread stress run (2-4 threads) is a smoke test. Non-trivial: a request at an interior yield point or inside the creator. Distinct by schedule.".into();
     ctx.assumptions = vec![
         "file-change notifications set the same flag under the same lock as request_reload and are represented by it".into(),
         "interleavings are produced on one thread through the hook callback; the real-thread part only samples".into(),
